@@ -315,7 +315,7 @@ def history(ctx, i):
 
 
 def run(ctx):
-    n = 110 if ctx.tier == "quick" else 700
+    n = 110 if ctx.tier == "quick" else 3200
     core.WARM_P = 0.0
     if ctx.replay:
         ctx.inconc("C07 replays are re-generated from the seed; re-run the tier with the recorded seed")
